@@ -226,8 +226,13 @@ func (v *version) Clone() Version {
 	for k, v := range v.rollup.rollupFiles {
 		nv.rollup.rollupFiles[k] = v
 	}
-	for k, v := range v.rollup.referenceFiles {
-		nv.rollup.referenceFiles[k] = v
+	for store, families := range v.rollup.referenceFiles {
+		// NOTE: need copy the families of store, edit log modifies it when applies to new version
+		newFamilies := make(map[FamilyID][]table.FileNumber, len(families))
+		for familyID, files := range families {
+			newFamilies[familyID] = files
+		}
+		nv.rollup.referenceFiles[store] = newFamilies
 	}
 	for k, v := range v.sequences {
 		nv.sequences[k] = v
